@@ -245,6 +245,14 @@ func init() {
 		primer0200 := append(bytes.Repeat([]byte{0xff}, 8), []byte{1, 2, 3, 4, 5, 6, 7, 8, 0, 9, 0, 10, 0, 11, 0x24, 0x10, 0x01, 0x23, 0x59, 0x59,
 			0x01, 4, 0, 0, 0, 9, 0x02, 2, 0, 7, 0x25, 4, 0xff, 0xff, 0xff, 0xff, 0x2a, 2, 0xff, 0xff, 0x30, 1, 9, 0xe1, 2, 7, 7}...)
 		reused0801 := &model.T0x0801{}
+		reused0704 := &model.T0x0704{}
+		var last0704 *locCase
+		pairWith := func(prev *locCase, c locCase) any {
+			if prev == nil {
+				return c
+			}
+			return []locCase{*prev, c}
+		}
 		err := readND(a[0], func(i int, raw []byte) error {
 			var c locCase
 			if err := jsonUnmarshal(raw, &c); err != nil {
@@ -316,6 +324,27 @@ func init() {
 				if p := protect(func() { err = t7.Parse(jtBody(b704)) }); p != "" || err != nil || len(t7.Items) != 2 {
 					put("0x0704 batch-not-parsed", fmt.Sprint(p, err, len(t7.Items)), c)
 					return nil
+				}
+				// ... and through a long-lived receiver: the items it handed out for the previous batch are the caller's - they read
+				// the same after this batch has been parsed - and the items of this batch are decoded from this batch only
+				heldItems := reused0704.Items
+				heldSnap, herr := json.Marshal(heldItems)
+				var rerr error
+				if p := protect(func() { rerr = reused0704.Parse(jtBody(b704)) }); p != "" || rerr != nil || len(reused0704.Items) != 2 {
+					put("0x0704 reused-receiver batch-not-parsed", fmt.Sprint(p, rerr, len(reused0704.Items)), c)
+					reused0704 = &model.T0x0704{}
+				} else {
+					if now, err2 := json.Marshal(heldItems); herr == nil && err2 == nil && !bytes.Equal(now, heldSnap) {
+						put("0x0704 items-handed-out-earlier-changed-by-the-next-parse", diffWindow(string(heldSnap), string(now)), pairWith(last0704, c))
+					}
+					cc := c
+					last0704 = &cc
+					a, e1 := json.Marshal(reused0704.Items)
+					b, e2 := json.Marshal(t7.Items)
+					if e1 == nil && e2 == nil && !bytes.Equal(a, b) {
+						put("0x0704 reused-receiver-differs", diffWindow(string(b), string(a)), c)
+						reused0704 = &model.T0x0704{}
+					}
 				}
 				for k := range t7.Items {
 					if f, d := cmpBase(c.R, t7.Items[k].T0x0200LocationItem); f != "" {
